@@ -122,3 +122,18 @@ pub fn serialises_as<const K: usize>(m: ControlMessage, tag: i64, xs: [i64; K]) 
     vassert!(is_int_tuple::<K>(&t2, tag, &xs), "L:into_term_agrees");
     vk::leak(t2);
 }
+
+
+/// An unlink id is any u64 ("a non-negative integer of at most 64 bits"): one above i64::MAX must not be written as a negative
+/// integer (which is a different value, and which from_term then rejects).
+pub fn unlink_id_value_kept(m: &ControlMessage, x_id: i64) {
+    let t = m.to_term();
+    if let OwnedTerm::Tuple(es) = &t {
+        if es.len() > 1 {
+            if let OwnedTerm::Integer(v) = &es[1] {
+                vassert!(*v >= 0 || x_id >= 0, "L:unlink_id_above_i64_max_written_as_a_negative_integer");
+            }
+        }
+    }
+    vk::leak(t);
+}
